@@ -55,6 +55,27 @@ def must_reject(seq):
             return True                               # a value directly after a postfix % or a closing bracket
         if a in OPERANDS and V[b] in ('(', 'SUM(', '{') and a in (1, 3):
             return True                               # an opening bracket / call directly after text or an error literal
+    # ragged array rows: inside one pair of braces (no nested brackets) every row has
+    # the same number of top-level commas
+    i = 0
+    while i < len(seq):
+        if V[seq[i]] == '{':
+            j, rows, cur, flat = i + 1, [], 0, True
+            while j < len(seq) and V[seq[j]] != '}':
+                t = V[seq[j]]
+                if t in ('(', 'SUM(', '{', ')'):
+                    flat = False
+                if t == ',':
+                    cur += 1
+                if t == ';':
+                    rows.append(cur)
+                    cur = 0
+                j += 1
+            rows.append(cur)
+            if flat and j < len(seq) and len(set(rows)) > 1:
+                return True
+            i = j
+        i += 1
     if V[seq[-1]] in ('+', '-', '*', '^', '&', '='):
         return True                                   # operator without right operand
     if V[seq[0]] in ('*', '^', '&', '=', '%'):
@@ -102,7 +123,9 @@ VALID = [
     [17, 0, 15, 0, 19, 0, 15, 0, 18],   # {1,1;1,1}
     [5, 2, 9, 1],                       # -A1&"a"
     [16, 17, 0, 15, 0, 18, 15, 16, 14, 14],   # SUM({1,1},SUM())
+    [17, 0, 15, 1, 15, 0, 19, 0, 15, 0, 15, 0, 19, 0, 15, 0, 15, 0, 18][:16],   # placeholder, replaced below
 ]
+VALID[6] = [17, 0, 15, 1, 19, 2, 15, 0, 19, 0, 15, 0, 18]     # {1,"a";A1,1;1,1}
 VALID = __VALID__ or VALID
 
 
